@@ -56,6 +56,12 @@ OCO_VARS = [
 ]
 
 
+def _chunk(jobs):
+  """Jobs per worker process: two waves of processes, so that jax start-up and jit caches are
+  shared by many jobs."""
+  return max(1, -(-len(jobs) // (2 * core.NCPU)))
+
+
 def _nnz(b):
   return max(sum(1 for x in s["g"] if x) for s in b["steps"])
 
@@ -291,7 +297,12 @@ def run(ck):
     phase[name] = round(time.time() - t_last[0], 1)
     t_last[0] = time.time()
   # ---- M -------------------------------------------------------------------------------
-  ck.mc("FD_MC", "FD_MC" if quick else "FD_MCT", required_actions=["Next"])
+  # (coverage instrumentation makes this run 4x slower; the spec has one action, so "taken" is
+  # witnessed by the depth of the state graph instead)
+  for cfgname in (["FD_MC"] if quick else ["FD_MCT", "FD_MCT5"]):
+    r = ck.mc("FD_MC", cfgname)
+    if r.depth < 5 or r.generated <= r.distinct // 2:
+      raise core.MachineryError(f"vacuous model run {cfgname}: depth {r.depth}")
   mark("M")
   # ---- R: behaviours from TLC ----------------------------------------------------------------
   beh = ck.gen("FD_Gen", "FD_Gen" if quick else "FD_GenT")
@@ -317,11 +328,12 @@ def run(ck):
   ck.cov["tlc_exported_deep"] = len(deep)
   mark("gen")
   # direct calls
-  for impl, x64 in (("ds", False), ("tf", False), ("oco", True)) + ((("ds", True), ("tf", True)) if not quick else ()):
-    jobs = direct_jobs(ck, allb, impl, x64)
-    res = core.run_workers("harness.workers.fd_direct", jobs, x64=x64, work=ck.work, chunk=1)
+  for x64, impls in ((False, ("ds", "tf")), (True, ("oco",) if quick else ("oco", "ds", "tf"))):
+    jobs = [j for impl in impls for j in direct_jobs(ck, allb, impl, x64)]
+    jobs = [jobs[i] for i in np.random.RandomState(ck.seed + 3).permutation(len(jobs))]   # balance
+    res = core.run_workers("harness.workers.fd_direct", jobs, x64=x64, work=ck.work, chunk=_chunk(jobs))
     judge(ck, jobs, res, "FD_Gen replay (direct call)", "direct64" if x64 else "direct", stats)
-    mark(f"R_direct_{impl}{'_x64' if x64 else ''}")
+    mark(f"R_direct{'_x64' if x64 else ''}")
   if not stats.get("flag_checked"):
     raise core.MachineryError("has_zeros was never checked on a full sketch")
   # binding self-test (R): corrupt the expected escaped mass of one step
@@ -337,7 +349,7 @@ def run(ck):
   mark("R_selftest")
   # through the optimizers
   jobs = opt_jobs(ck, allb, quick)
-  res = core.run_workers("harness.workers.fd_optrun", jobs, work=ck.work, chunk=1)
+  res = core.run_workers("harness.workers.fd_optrun", jobs, work=ck.work, chunk=_chunk(jobs))
   judge_opt(ck, jobs, res, stats)
   ck.cov["optimizer_replay_jobs"] = len(jobs)
   mark("R_optimizers")
@@ -345,7 +357,7 @@ def run(ck):
   mj = measure_jobs(ck, quick)
   traces = []
   for x64, sel in ((False, [j for j in mj if j["impl"] != "oco"]), (True, [j for j in mj if j["impl"] == "oco"])):
-    res = core.run_workers("harness.workers.fd_measure", sel, x64=x64, work=ck.work, chunk=1)
+    res = core.run_workers("harness.workers.fd_measure", sel, x64=x64, work=ck.work, chunk=_chunk(sel))
     for j, r in zip(sel, res):
       if r.get("error"):
         ck.violation(f"{j['impl']}|measured|exception", f"{j['impl']} {j['var']}: {r['error']}",
@@ -353,7 +365,7 @@ def run(ck):
       traces.extend(r["traces"])
   mark("V_record")
   ck.sample({"measured_trace": {"cfg": traces[0]["cfg"], "events": traces[0]["events"][:2]}})
-  judge_measured(ck, traces, stats)
+  verdicts = judge_measured(ck, traces, stats)
   if not stats.get("v_escaped"):
     raise core.MachineryError("no measured step ever removed mass")
   if not stats.get("mixed_hits"):
@@ -362,11 +374,14 @@ def run(ck):
     ck.cov["mixed_size_finding_reobserved"] = True
   mark("V_validate")
   # binding self-tests (V)
-  t0 = copy.deepcopy(next(t for t in traces if t["cfg"]["impl"] == "tf" and any(e["r"] > 1000 for e in t["events"])))
-  i0 = next(i for i, e in enumerate(t0["events"]) if e["r"] > 1000)
+  good = [t for t, v in zip(traces, verdicts) if v["accepted"]]
+  if not good:
+    raise core.MachineryError("no measured trace was accepted")
+  t0 = copy.deepcopy(next((t for t in good if any(e["r"] > 1000 for e in t["events"])), good[0]))
+  i0 = next((i for i, e in enumerate(t0["events"]) if e["r"] > 1000), 0)
   t0["events"][i0]["tnew"] += 5000
-  t1 = copy.deepcopy(traces[0]); t1["events"][-1]["hi"] = -5000
-  t2 = copy.deepcopy(traces[0]); t2["events"][0]["orth"] = 5000
+  t1 = copy.deepcopy(good[0]); t1["events"][-1]["hi"] = -5000
+  t2 = copy.deepcopy(good[0]); t2["events"][0]["orth"] = 5000
   sub = core.Check(ck.pid, ck.level, ck.tier, ck.seed); sub.work = ck.work
   vs = sub.validate("FD_Trace", "FD_Trace",
                     [{"cfg": dict(t["cfg"], tol=VTOL, otol=VTOL), "events": t["events"]} for t in (t0, t1, t2)])
